@@ -1,14 +1,27 @@
 //! C11 — query history independence of BackwardEngine (memo cache).
 //! case := `<cfg>m<0|1> <init facts> <rules> <ops>`   (cfg / facts / rules as in c09.rs)
-//!   ops := op,op,…   op := `Q<atom>` query | `A<atom>` query_aggregate("count(?x) WHERE <pattern>")
+//!   ops := op,op,…   op := `Q<atom>` query | `N<atom>` query("NOT <atom>") — the negated goal
+//!                        | `A<atom>` query_aggregate("count(?x) WHERE <pattern>")
 //!                        | `S<F>=<val>` facts.set | `D<F>` facts.remove
+//!                        | `P<prefix>*<n>=<xval>` bulk load: facts.set("<prefix><i:02>", xval) for i in 0..n — `n` extra
+//!                          facts whose names sort where the prefix puts them (`0k` before every FIELDS name, `H` between
+//!                          `G` and `U.P`, `z` after all of them); prefix := [A-Za-z0-9.]+
+//!                        | `X<name>=<xval>` facts.set of one extra fact by name
+//!                          xval := val | `l<len>` (the String of `len` letters x: a long value)
 //!                        | `K<D|B|I><depth>` engine.set_config (same memoisation / max_solutions, new strategy and depth);
 //!                          queries after a `K` are reported with kind `k` (the cache model is not run on them:
 //!                          set_config rebuilds the goal manager), the fresh engine uses the configuration in force
-//! obs  := one item per Q/A op, `;`-separated:  `<kind q|a>/<key>/<answer>/<fresh>/<hit>`
-//!   key = query text | max_solutions in force | canonical facts before the call (hex of the text)
-//!   answer = provable (Q) or count > 0 … rendered `1|0|e`; fresh = the same from a freshly built engine on
+//! obs  := one item per Q/N/A op, `;`-separated:  `<kind q|a|k>/<key>/<answer>/<fresh>/<hit>/<flags>`
+//!   key = query text | max_solutions in force | canonical facts before the call — hex of the text when it is short,
+//!         `h<len>.<two 64-bit FNV digests>` of the text when it is longer than 160 bytes (large stores; the key is only
+//!         compared for equality by the cache model)
+//!   answer = provable (Q/N) or count > 0 … rendered `1|0|e`; fresh = the same from a freshly built engine on
 //!   a deep copy of the facts; hit = the call was answered without searching (stats.goals_explored == 0)
+//!   flags (input classification only, `-` when none): `N` a negated goal; `n` the negation / un-negated form of this query was asked earlier
+//!   on identical facts; `p` the same query was asked earlier on facts that are a non-trivial PERMUTATION of the present
+//!   ones (same names, same multiset of values, another assignment); `L` the engine's own key text (query, max_solutions,
+//!   Debug of the facts sorted by name) is longer than 1024 bytes; `c` the same query was asked earlier on facts whose
+//!   rendering shares the first 1024 bytes with the present one but differs later
 #[allow(dead_code)]
 #[path = "c09.rs"]
 mod c09;
@@ -34,6 +47,101 @@ fn show_value(v: &Value) -> String {
     }
 }
 
+/// values of the extra facts: c09's literals plus `l<len>` = a String of `len` letters x
+fn parse_xval(s: &str) -> Option<Value> {
+    match s.chars().next()? {
+        't' if s == "t" => Some(Value::Boolean(true)),
+        'f' if s == "f" => Some(Value::Boolean(false)),
+        'n' => Some(Value::Number(s[1..].parse::<i64>().ok()? as f64)),
+        'i' => Some(Value::Integer(s[1..].parse().ok()?)),
+        's' => Some(Value::String(s[1..].replace('_', " "))),
+        'l' => {
+            let n: usize = s[1..].parse().ok()?;
+            if n > 4096 {
+                return None;
+            }
+            Some(Value::String("x".repeat(n)))
+        }
+        _ => None,
+    }
+}
+
+/// injective rendering of a value (type tag + content; numbers as bit patterns)
+fn show_any(v: &Value) -> String {
+    match v {
+        Value::Boolean(true) => "t".into(),
+        Value::Boolean(false) => "f".into(),
+        Value::Number(x) => format!("n{:x}", x.to_bits()),
+        Value::Integer(i) => format!("i{}", i),
+        Value::String(s) => format!("s{}", hex(s)),
+        other => format!("?{}", hex(&format!("{:?}", other))),
+    }
+}
+
+fn extra_name_ok(s: &str) -> bool {
+    !s.is_empty() && s.len() <= 24 && s.chars().all(|c| c.is_ascii_alphanumeric() || c == '.') && !FIELDS.contains(&s)
+}
+
+/// the caller's facts, sorted by name, each value rendered injectively
+fn canon(f: &Facts) -> Vec<(String, String)> {
+    let mut v: Vec<(String, String)> = f.get_all_facts().iter().map(|(k, v)| (k.clone(), show_any(v))).collect();
+    v.sort();
+    v
+}
+
+/// canonical text of the facts for the observation key: c09's rendering while only FIELDS are present (as before),
+/// `name=value` of every fact otherwise
+fn facts_text(f: &Facts, c: &[(String, String)]) -> String {
+    if c.iter().all(|(k, _)| FIELDS.contains(&k.as_str())) {
+        show_facts(f)
+    } else {
+        c.iter().map(|(k, v)| format!("{}={}", k, v)).collect::<Vec<_>>().join(",")
+    }
+}
+
+fn fnv64(s: &str, basis: u64) -> u64 {
+    let mut h = basis;
+    for b in s.bytes() {
+        h ^= b as u64;
+        h = h.wrapping_mul(0x100000001b3);
+    }
+    h
+}
+
+/// bounded rendering of the key text (the cache model only compares keys for equality)
+fn show_key(key: &str) -> String {
+    if key.len() <= 160 {
+        hex(key)
+    } else {
+        format!("h{}.{:016x}{:016x}", key.len(), fnv64(key, 0xcbf29ce484222325), fnv64(key, 0x84222325cbf29ce4))
+    }
+}
+
+/// the text `BackwardEngine::memo_key` renders for these facts (used only for the classification flags `L` / `c`)
+fn engine_key_text(query: &str, ms: usize, f: &Facts) -> String {
+    let mut entries: Vec<(String, Value)> = f.get_all_facts().into_iter().collect();
+    entries.sort_by(|a, b| a.0.cmp(&b.0));
+    format!("{}\u{0}{}\u{0}{:?}", query, ms, entries)
+}
+
+struct Asked {
+    query: String,
+    ms: String,
+    facts: Vec<(String, String)>,
+    text: String,
+}
+
+fn is_permutation(a: &[(String, String)], b: &[(String, String)]) -> bool {
+    if a == b || a.len() != b.len() || a.iter().zip(b).any(|(x, y)| x.0 != y.0) {
+        return false;
+    }
+    let mut va: Vec<&String> = a.iter().map(|x| &x.1).collect();
+    let mut vb: Vec<&String> = b.iter().map(|x| &x.1).collect();
+    va.sort();
+    vb.sort();
+    va == vb
+}
+
 fn exec(case: &str) -> String {
     let t: Vec<&str> = case.split_whitespace().collect();
     if t.len() != 4 {
@@ -50,7 +158,11 @@ fn exec(case: &str) -> String {
         facts.set(FIELDS[*k], v.clone());
     }
     let mut out = Vec::new();
+    let mut asked: Vec<Asked> = Vec::new();
     for op in t[3].split(',') {
+        if op.is_empty() {
+            return "bad-case".into();
+        }
         let (kind, rest) = op.split_at(1);
         match kind {
             "S" => {
@@ -66,7 +178,29 @@ fn exec(case: &str) -> String {
                 }
                 facts.remove(FIELDS[i]);
             }
+            "P" => {
+                let Some((pre, nv)) = rest.split_once('*') else { return "bad-case".into() };
+                let Some((n, v)) = nv.split_once('=') else { return "bad-case".into() };
+                let (Ok(n), Some(v)) = (n.parse::<usize>(), parse_xval(v)) else { return "bad-case".into() };
+                if n > 200 || !extra_name_ok(pre) {
+                    return "bad-case".into();
+                }
+                for i in 0..n {
+                    facts.set(&format!("{}{:02}", pre, i), v.clone());
+                }
+            }
+            "X" => {
+                let Some((name, v)) = rest.split_once('=') else { return "bad-case".into() };
+                let Some(v) = parse_xval(v) else { return "bad-case".into() };
+                if !extra_name_ok(name) {
+                    return "bad-case".into();
+                }
+                facts.set(name, v);
+            }
             "K" => {
+                if rest.is_empty() {
+                    return "bad-case".into();
+                }
                 let strategy = match &rest[..1] {
                     "D" => rust_rule_engine::backward::search::SearchStrategy::DepthFirst,
                     "B" => rust_rule_engine::backward::search::SearchStrategy::BreadthFirst,
@@ -84,34 +218,66 @@ fn exec(case: &str) -> String {
                 });
                 reconfigured = true;
             }
-            "Q" | "A" => {
+            "Q" | "A" | "N" => {
                 let Some(c) = parse_case(&format!("{} - {} -", cfg, rest)) else { return "bad-case".into() };
-                let before = show_facts(&facts);
+                let query = if kind == "N" { format!("NOT {}", c.query) } else { c.query.clone() };
+                let cf = canon(&facts);
+                let before = facts_text(&facts, &cf);
                 let mut fresh_engine = build_engine(&base, memo);
                 let mut copy = deep_copy(&facts);
-                let (ans, fresh, hit, ms) = if kind == "Q" {
-                    let fr = match fresh_engine.query(&c.query, &mut copy) {
+                let (text, ms);
+                let (ans, fresh, hit) = if kind != "A" {
+                    ms = base.max_solutions.to_string();
+                    text = engine_key_text(&query, base.max_solutions, &facts);
+                    let fr = match fresh_engine.query(&query, &mut copy) {
                         Ok(r) => if r.provable { "1" } else { "0" }.to_string(),
                         Err(_) => "e".to_string(),
                     };
-                    match engine.query(&c.query, &mut facts) {
-                        Ok(r) => (if r.provable { "1" } else { "0" }.to_string(), fr, r.stats.goals_explored == 0, base.max_solutions.to_string()),
-                        Err(_) => ("e".to_string(), fr, false, base.max_solutions.to_string()),
+                    match engine.query(&query, &mut facts) {
+                        Ok(r) => (if r.provable { "1" } else { "0" }.to_string(), fr, r.stats.goals_explored == 0),
+                        Err(_) => ("e".to_string(), fr, false),
                     }
                 } else {
-                    let q = format!("count(?x) WHERE {}", c.query);
+                    ms = "max".to_string();
+                    text = engine_key_text(&query, usize::MAX, &facts);
+                    let q = format!("count(?x) WHERE {}", query);
                     let fr = match fresh_engine.query_aggregate(&q, &mut copy) {
                         Ok(v) => show_value(&v),
                         Err(_) => "e".to_string(),
                     };
                     match engine.query_aggregate(&q, &mut facts) {
-                        Ok(v) => (show_value(&v), fr, false, "max".to_string()),
-                        Err(_) => ("e".to_string(), fr, false, "max".to_string()),
+                        Ok(v) => (show_value(&v), fr, false),
+                        Err(_) => ("e".to_string(), fr, false),
                     }
                 };
-                let key = format!("{}|{}|{}", c.query, ms, before);
+                // classification of the input situation (what kind of earlier call this one could be confused with)
+                let partner = match query.strip_prefix("NOT ") {
+                    Some(p) => p.to_string(),
+                    None => format!("NOT {}", query),
+                };
+                let mut flags = String::new();
+                if kind == "N" {
+                    flags.push('N');
+                }
+                if asked.iter().any(|a| a.query == partner && a.ms == ms && a.facts == cf) {
+                    flags.push('n');
+                }
+                if asked.iter().any(|a| a.query == query && a.ms == ms && is_permutation(&a.facts, &cf)) {
+                    flags.push('p');
+                }
+                if text.len() > 1024 {
+                    flags.push('L');
+                    if asked.iter().any(|a| a.query == query && a.ms == ms && a.text != text && a.text.len() > 1024 && a.text.as_bytes()[..1024] == text.as_bytes()[..1024]) {
+                        flags.push('c');
+                    }
+                }
+                if flags.is_empty() {
+                    flags.push('-');
+                }
+                let key = format!("{}|{}|{}", query, ms, before);
                 let kd = if kind == "A" { "a" } else if reconfigured { "k" } else { "q" };
-                out.push(format!("{}/{}/{}/{}/{}", kd, hex(&key), ans, fresh, if hit { 1 } else { 0 }));
+                out.push(format!("{}/{}/{}/{}/{}/{}", kd, show_key(&key), ans, fresh, if hit { 1 } else { 0 }, flags));
+                asked.push(Asked { query, ms, facts: cf, text });
             }
             _ => return "bad-case".into(),
         }
@@ -119,48 +285,341 @@ fn exec(case: &str) -> String {
     if out.is_empty() { "-".into() } else { out.join(";") }
 }
 
+/// one random history over a small derivation problem on fields F0..F3 (+ F5 goal, F6 input): `(cfg, init, rules, ops)`
+fn random_history(rng: &mut Rng) -> (String, String, Vec<String>, Vec<String>) {
+    let nf = 4u64;
+    let mut rules = Vec::new();
+    for _ in 0..rng.range(1, 5) {
+        let c = if rng.chance(1, 3) {
+            format!("&,F{}.eq.t,F6.eq.n{}", rng.below(nf), rng.below(2))
+        } else if rng.chance(1, 2) {
+            format!("F6.eq.n{}", rng.below(2))
+        } else {
+            format!("F{}.eq.t", rng.below(nf))
+        };
+        let h = if rng.chance(1, 3) { 5 } else { rng.below(nf) };
+        rules.push(format!("{}~F{}:={}", c, h, if rng.chance(4, 5) { "t" } else { "f" }));
+    }
+    let strat = ["D", "D", "B", "I"][rng.below(4) as usize];
+    let cfg = format!("{}{}s{}m{}", strat, rng.range(1, 4), if rng.chance(3, 4) { 1 } else { 3 }, if rng.chance(5, 6) { 1 } else { 0 });
+    let init = if rng.chance(1, 2) { "F6=n1".to_string() } else { "-".to_string() };
+    let goals = ["F5.eq.t", "F0.eq.t", "F1.eq.t", "F5.eq.f"];
+    let mut ops = Vec::new();
+    let nq = rng.range(2, 6);
+    let mut q = 0;
+    let g0 = *rng.pick(&goals);
+    while q < nq {
+        match rng.below(10) {
+            0..=4 => {
+                // mostly the same query again: that is what a stale cache answers wrongly; 1 in 7 as the NEGATED goal
+                // (`NOT g`), which must not share a cache entry with `g`
+                let g = if rng.chance(2, 3) { g0 } else { *rng.pick(&goals) };
+                let k = match rng.below(56) {
+                    0..=6 => "A",
+                    7..=14 => "N",
+                    _ => "Q",
+                };
+                ops.push(format!("{}{}", k, g));
+                q += 1;
+            }
+            // the same printed value in another type (Integer 1 / Number 1.0, Boolean true / String "true"):
+            // the verdict changes, a key that forgets the type does not
+            5..=6 => ops.push(format!("SF6={}{}", if rng.chance(1, 3) { "i" } else { "n" }, rng.below(2))),
+            7 => ops.push(format!("SF{}={}", rng.below(nf), *rng.pick(&["t", "f", "t", "f", "strue", "sfalse"]))),
+            8 => ops.push(format!("DF{}", *rng.pick(&[6u64, 5, 0, 1]))),
+            9 if rng.chance(1, 2) => ops.push(format!("K{}{}", *rng.pick(&["D", "B", "I"]), rng.range(1, 4))),
+            _ => ops.push("DF6".to_string()),
+        }
+    }
+    (cfg, init, rules, ops)
+}
+
+/// prefixes of the extra facts by where their names sort relative to FIELDS (A B C D E G U.P U.Q X Y):
+/// before all of them / between G and U.P / after all of them
+const PRE_BEFORE: [&str; 3] = ["0k", "0.item", "9"];
+const PRE_MIDDLE: [&str; 3] = ["H", "It.", "Mid.v"];
+const PRE_AFTER: [&str; 3] = ["z", "Zone.t", "a"];
+
+/// bulk-load ops whose facts render to well over 1024 bytes of the engine's key text: 36..80 small facts, or a
+/// few long strings, or both
+fn big_store(rng: &mut Rng, pres: &[&str]) -> Vec<String> {
+    let pre = *rng.pick(pres);
+    let small = ["i100", "t", "n7", "sab", "f", "i0"];
+    match rng.below(4) {
+        0 => vec![format!("P{}*{}={}", pre, rng.range(2, 5), format!("l{}", rng.range(300, 700)))],
+        1 => vec![
+            format!("P{}*{}={}", pre, rng.range(20, 50), *rng.pick(&small)),
+            format!("P{}s*{}=l{}", pre, rng.range(1, 3), rng.range(400, 900)),
+        ],
+        _ => vec![format!("P{}*{}={}", pre, rng.range(36, 80), *rng.pick(&small))],
+    }
+}
+
+fn other_query(rng: &mut Rng) -> String {
+    format!(
+        "{}F{}.{}.{}",
+        if rng.chance(1, 4) { "N" } else { "Q" },
+        rng.below(8),
+        *rng.pick(&["eq", "eq", "ne", "gt", "lt"]),
+        *rng.pick(&["t", "f", "n0", "n1", "n5", "sab"])
+    )
+}
+
+/// negation family: a goal and its `NOT` form asked on IDENTICAL facts, in both orders, with other queries in
+/// between — the two verdicts differ (closed world) under depth-first / iterative search
+fn gen_negation(rng: &mut Rng) -> String {
+    let vals = ["t", "f", "n0", "n1", "n5", "sab", "i1"];
+    let mut init = Vec::new();
+    let mut present = Vec::new();
+    for f in [0u64, 1, 2, 3, 6, 7, 8] {
+        if rng.chance(1, 2) {
+            let v = *rng.pick(&vals);
+            init.push(format!("F{}={}", f, v));
+            present.push((f, v));
+        }
+    }
+    // the goal: mostly about a present fact (true or false of it), sometimes about an absent one
+    let g = if !present.is_empty() && rng.chance(4, 5) {
+        let (f, v) = *rng.pick(&present);
+        if v.starts_with('n') && rng.chance(1, 2) {
+            format!("F{}.{}.n{}", f, *rng.pick(&["gt", "lt", "ge", "le", "ne"]), rng.below(6))
+        } else if rng.chance(3, 4) && !v.starts_with('i') {
+            format!("F{}.eq.{}", f, v)
+        } else {
+            format!("F{}.eq.{}", f, *rng.pick(&["t", "f", "n1", "sab"]))
+        }
+    } else {
+        format!("F{}.eq.{}", *rng.pick(&[4u64, 5, 9]), *rng.pick(&["t", "f", "n1"]))
+    };
+    // rules: none (the facts cannot change between the two askings), or a few that conclude something else / the goal
+    let mut rules = Vec::new();
+    if rng.chance(2, 5) {
+        for _ in 0..rng.range(1, 3) {
+            let c = format!("F{}.eq.{}", rng.below(4), *rng.pick(&["t", "f", "n1"]));
+            rules.push(format!("{}~F{}:={}", c, *rng.pick(&[4u64, 5, 5, 9, 0]), *rng.pick(&["t", "t", "f", "n1"])));
+        }
+    }
+    let first_neg = rng.chance(1, 2);
+    let form = |neg: bool| format!("{}{}", if neg { "N" } else { "Q" }, g);
+    let mut ops = Vec::new();
+    if rng.chance(1, 6) {
+        ops.extend(big_store(rng, &PRE_AFTER));
+    }
+    ops.push(form(first_neg));
+    for _ in 0..rng.below(4) {
+        ops.push(other_query(rng));
+    }
+    ops.push(form(!first_neg));
+    match rng.below(4) {
+        // once more each way round (genuine hits now), or after a change that flips both
+        0 => {
+            ops.push(form(first_neg));
+            ops.push(form(!first_neg));
+        }
+        1 if !present.is_empty() => {
+            let (f, _) = *rng.pick(&present);
+            ops.push(format!("SF{}={}", f, *rng.pick(&vals)));
+            ops.push(form(!first_neg));
+            ops.push(form(first_neg));
+        }
+        2 if !present.is_empty() => {
+            let (f, _) = *rng.pick(&present);
+            ops.push(format!("DF{}", f));
+            ops.push(form(first_neg));
+            ops.push(form(!first_neg));
+        }
+        _ => {}
+    }
+    let strat = ["D", "D", "D", "I", "B"][rng.below(5) as usize];
+    let cfg = format!("{}{}s{}m{}", strat, rng.range(1, 4), if rng.chance(3, 4) { 1 } else { 3 }, if rng.chance(9, 10) { 1 } else { 0 });
+    format!(
+        "{} {} {} {}",
+        cfg,
+        if init.is_empty() { "-".to_string() } else { init.join(",") },
+        if rules.is_empty() { "-".to_string() } else { rules.join(";") },
+        ops.join(",")
+    )
+}
+
+/// permutation family: the same query before and after the caller PERMUTES values among the same fact names (swap
+/// of two, toggle of two opposite booleans, rotation of three) — name set and multiset of values are unchanged, the
+/// verdict depends on which name holds which value (directly, or through a rule over two of the names)
+fn gen_permutation(rng: &mut Rng) -> String {
+    let mut fields: Vec<u64> = vec![0, 1, 2, 3, 6, 7, 8, 9];
+    rng.shuffle(&mut fields);
+    let k = if rng.chance(3, 5) { 2 } else { 3 };
+    let fs: Vec<u64> = fields[..k].to_vec();
+    let pools: [&[&str]; 6] = [
+        &["t", "f", "t"],
+        &["n3", "n8", "n5"],
+        &["i1", "n1", "n0"],
+        &["sab", "scd", "s"],
+        &["t", "strue", "f"],
+        &["n1", "t", "sab"],
+    ];
+    let pool = *rng.pick(&pools);
+    let mut vals: Vec<&str> = pool[..k].to_vec();
+    if k == 3 && vals[0] == vals[2] {
+        vals[2] = "n1"; // three different holders need at least two different values; keep the rotation visible
+    }
+    let mut init: Vec<String> = (0..k).map(|i| format!("F{}={}", fs[i], vals[i])).collect();
+    // bystanders that never change
+    for f in &fields[k..] {
+        if rng.chance(1, 4) {
+            init.push(format!("F{}={}", f, *rng.pick(&["t", "f", "n1", "n3", "sab"])));
+        }
+    }
+    rng.shuffle(&mut init);
+    let numeric = vals.iter().all(|v| v.starts_with('n'));
+    let mut rules = Vec::new();
+    let derived = rng.chance(2, 5);
+    let goal = if derived {
+        // F5 := t  <-  a condition over one or two of the permuted names; true either before or after the permutation
+        let j = rng.below(k as u64) as usize;
+        let holder = if rng.chance(1, 2) { j } else { (j + 1) % k };
+        let c1 = if numeric && rng.chance(1, 2) {
+            format!("F{}.{}.n5", fs[holder], if vals[j] > "n5" { "gt" } else { "le" })
+        } else {
+            format!("F{}.eq.{}", fs[holder], vals[j])
+        };
+        let c = if rng.chance(1, 2) {
+            let j2 = (j + 1) % k;
+            let holder2 = (holder + 1) % k;
+            format!("&,{},F{}.eq.{}", c1, fs[holder2], vals[j2])
+        } else {
+            c1
+        };
+        rules.push(format!("{}~F5:=t", c));
+        if rng.chance(1, 3) {
+            rules.push(format!("F{}.eq.n9~F4:=t", fs[0]));
+        }
+        rng.shuffle(&mut rules);
+        "F5.eq.t".to_string()
+    } else {
+        let j = rng.below(k as u64) as usize;
+        if numeric && rng.chance(1, 2) {
+            format!("F{}.{}.n5", fs[j], *rng.pick(&["gt", "lt", "ge", "le"]))
+        } else {
+            format!("F{}.{}.{}", fs[j], if rng.chance(5, 6) { "eq" } else { "ne" }, vals[rng.below(k as u64) as usize])
+        }
+    };
+    let ask = |rng: &mut Rng, ops: &mut Vec<String>| {
+        ops.push(format!("{}{}", if rng.chance(1, 8) { "N" } else { "Q" }, goal));
+        if derived {
+            // a proof commits the derived fact: take it out again so that only the permutation differs
+            if rng.chance(5, 6) {
+                ops.push("DF5".to_string());
+            }
+        }
+    };
+    let mut ops = Vec::new();
+    if rng.chance(1, 8) {
+        ops.extend(big_store(rng, &PRE_AFTER));
+    } else if rng.chance(1, 4) {
+        ops.push(format!("P{}*{}={}", *rng.pick(&PRE_MIDDLE), rng.range(1, 6), *rng.pick(&["t", "n3", "sab"])));
+    }
+    ask(rng, &mut ops);
+    let mut cur: Vec<&str> = vals.clone();
+    for _ in 0..rng.range(1, 3) {
+        for _ in 0..rng.below(3) {
+            ops.push(other_query(rng));
+        }
+        // permute: rotation by one or two places (for k = 2 both are the swap / the double toggle)
+        let r = if k == 3 && rng.chance(1, 2) { 2 } else { 1 };
+        let next: Vec<&str> = (0..k).map(|i| cur[(i + r) % k]).collect();
+        let mut sets: Vec<String> = (0..k).filter(|&i| next[i] != cur[i]).map(|i| format!("SF{}={}", fs[i], next[i])).collect();
+        rng.shuffle(&mut sets);
+        ops.extend(sets);
+        cur = next;
+        ask(rng, &mut ops);
+    }
+    let strat = ["D", "D", "B", "I"][rng.below(4) as usize];
+    let cfg = format!("{}{}s{}m{}", strat, rng.range(1, 4), if rng.chance(3, 4) { 1 } else { 3 }, if rng.chance(9, 10) { 1 } else { 0 });
+    format!("{} {} {} {}", cfg, init.join(","), if rules.is_empty() { "-".to_string() } else { rules.join(";") }, ops.join(","))
+}
+
+/// large-store family, focused form: the working memory renders to more than 1024 bytes in front of a LATE-sorting
+/// relevant fact (X, Y, U.P/U.Q after the `0…`/`H…` extras); the same query before and after a change to that fact only
+fn gen_late_change(rng: &mut Rng) -> String {
+    let late = *rng.pick(&[6u64, 7, 7, 8, 9]);
+    let (v0, v1) = *rng.pick(&[("n4", "n12"), ("f", "t"), ("t", "f"), ("n1", "i1"), ("sab", "scd"), ("n12", "n4")]);
+    let derived = rng.chance(1, 2);
+    let mut rules = Vec::new();
+    let goal = if derived {
+        rules.push(format!("F{}.eq.{}~F5:=t", late, if rng.chance(1, 2) { v0 } else { v1 }));
+        if rng.chance(1, 3) {
+            rules.push("F5.eq.t~F4:=t".to_string());
+        }
+        rng.shuffle(&mut rules);
+        if rules.len() == 2 && rng.chance(1, 2) { "F4.eq.t" } else { "F5.eq.t" }.to_string()
+    } else if v0.starts_with('n') && v1.starts_with('n') {
+        format!("F{}.{}.n8", late, *rng.pick(&["lt", "gt", "le", "ge"]))
+    } else {
+        format!("F{}.eq.{}", late, if rng.chance(1, 2) { v0 } else { v1 })
+    };
+    let mut init = vec![format!("F{}={}", late, v0)];
+    for f in [0u64, 1, 2] {
+        if rng.chance(1, 3) {
+            init.push(format!("F{}={}", f, *rng.pick(&["t", "f", "n1"])));
+        }
+    }
+    let restore = |ops: &mut Vec<String>| {
+        if derived {
+            ops.push("DF5".to_string());
+            ops.push("DF4".to_string());
+        }
+    };
+    let mut ops = Vec::new();
+    let before = rng.chance(5, 6);
+    // the store is large from the start, or grows past the limit after the first query
+    let grow_later = rng.chance(1, 5);
+    let store = if before {
+        let pres: &[&str] = if rng.chance(1, 2) { &PRE_BEFORE } else { &PRE_MIDDLE };
+        big_store(rng, pres)
+    } else {
+        big_store(rng, &PRE_AFTER)
+    };
+    if !grow_later {
+        ops.extend(store.clone());
+    }
+    ops.push(format!("Q{}", goal));
+    restore(&mut ops);
+    if grow_later {
+        ops.extend(store);
+        ops.push(format!("Q{}", goal));
+        restore(&mut ops);
+    }
+    for _ in 0..rng.below(3) {
+        ops.push(other_query(rng));
+    }
+    let mut cur = v0;
+    for _ in 0..rng.range(1, 3) {
+        match rng.below(6) {
+            0 => {
+                ops.push(format!("DF{}", late));
+                cur = "";
+            }
+            _ => {
+                cur = if cur == v1 { v0 } else { v1 };
+                ops.push(format!("SF{}={}", late, cur));
+            }
+        }
+        if rng.chance(1, 4) {
+            // an extra fact behind everything changes too
+            ops.push(format!("Xzz.last={}", *rng.pick(&["t", "n1", "l40"])));
+        }
+        ops.push(format!("{}{}", if rng.chance(1, 8) { "N" } else { "Q" }, goal));
+        restore(&mut ops);
+    }
+    let strat = ["D", "D", "B", "I"][rng.below(4) as usize];
+    let cfg = format!("{}{}s{}m{}", strat, rng.range(2, 4), if rng.chance(3, 4) { 1 } else { 3 }, if rng.chance(9, 10) { 1 } else { 0 });
+    format!("{} {} {} {}", cfg, init.join(","), if rules.is_empty() { "-".to_string() } else { rules.join(";") }, ops.join(","))
+}
+
 fn gen(rng: &mut Rng, n: usize, _tier: &str) -> Vec<String> {
     let mut out = Vec::new();
     for _ in 0..n {
-        // a small derivation problem over fields F0..F3 (+ F5 goal, F6 input)
-        let nf = 4u64;
-        let mut rules = Vec::new();
-        for _ in 0..rng.range(1, 5) {
-            let c = if rng.chance(1, 3) {
-                format!("&,F{}.eq.t,F6.eq.n{}", rng.below(nf), rng.below(2))
-            } else if rng.chance(1, 2) {
-                format!("F6.eq.n{}", rng.below(2))
-            } else {
-                format!("F{}.eq.t", rng.below(nf))
-            };
-            let h = if rng.chance(1, 3) { 5 } else { rng.below(nf) };
-            rules.push(format!("{}~F{}:={}", c, h, if rng.chance(4, 5) { "t" } else { "f" }));
-        }
-        let strat = ["D", "D", "B", "I"][rng.below(4) as usize];
-        let cfg = format!("{}{}s{}m{}", strat, rng.range(1, 4), if rng.chance(3, 4) { 1 } else { 3 }, if rng.chance(5, 6) { 1 } else { 0 });
-        let init = if rng.chance(1, 2) { "F6=n1".to_string() } else { "-".to_string() };
-        let goals = ["F5.eq.t", "F0.eq.t", "F1.eq.t", "F5.eq.f"];
-        let mut ops = Vec::new();
-        let nq = rng.range(2, 6);
-        let mut q = 0;
-        let g0 = *rng.pick(&goals);
-        while q < nq {
-            match rng.below(10) {
-                0..=4 => {
-                    // mostly the same query again: that is what a stale cache answers wrongly
-                    let g = if rng.chance(2, 3) { g0 } else { *rng.pick(&goals) };
-                    ops.push(format!("{}{}", if rng.chance(1, 8) { "A" } else { "Q" }, g));
-                    q += 1;
-                }
-                // the same printed value in another type (Integer 1 / Number 1.0, Boolean true / String "true"):
-                // the verdict changes, a key that forgets the type does not
-                5..=6 => ops.push(format!("SF6={}{}", if rng.chance(1, 3) { "i" } else { "n" }, rng.below(2))),
-                7 => ops.push(format!("SF{}={}", rng.below(nf), *rng.pick(&["t", "f", "t", "f", "strue", "sfalse"]))),
-                8 => ops.push(format!("DF{}", *rng.pick(&[6u64, 5, 0, 1]))),
-                9 if rng.chance(1, 2) => ops.push(format!("K{}{}", *rng.pick(&["D", "B", "I"]), rng.range(1, 4))),
-                _ => ops.push("DF6".to_string()),
-            }
-        }
+        let (cfg, init, rules, ops) = random_history(rng);
         out.push(format!("{} {} {} {}", cfg, init, rules.join(";"), ops.join(",")));
     }
     // reconfiguration family: the same query before and after a set_config that changes only the strategy
@@ -188,6 +647,61 @@ fn gen(rng: &mut Rng, n: usize, _tier: &str) -> Vec<String> {
         ops.push("QF5.eq.t".to_string());
         out.push(format!("{}{}s1m1 F6=n1 {} {}", s1, d, rules.join(";"), ops.join(",")));
     }
+    // negated goals: `g` and `NOT g` on identical facts, both orders
+    for _ in 0..n / 10 {
+        out.push(gen_negation(rng));
+    }
+    // values permuted among the same names between two askings of one query
+    for _ in 0..n / 10 {
+        out.push(gen_permutation(rng));
+    }
+    // large working memories (engine key text far beyond 1024 bytes)
+    for _ in 0..n / 12 {
+        // focused: only a late-sorting relevant fact changes
+        out.push(gen_late_change(rng));
+    }
+    for _ in 0..n / 12 {
+        // the random histories on top of a large store whose extras sort before / between / after the fields they use;
+        // sometimes the store grows past the limit in the middle of the history
+        let (cfg, init, rules, mut ops) = random_history(rng);
+        let pres: &[&str] = match rng.below(4) {
+            0 | 1 => &PRE_BEFORE,
+            2 => &PRE_MIDDLE,
+            _ => &PRE_AFTER,
+        };
+        let store = big_store(rng, pres);
+        let at = if rng.chance(3, 4) { 0 } else { rng.below(ops.len() as u64) as usize };
+        for (i, p) in store.into_iter().enumerate() {
+            ops.insert(at + i, p);
+        }
+        out.push(format!("{} {} {} {}", cfg, init, rules.join(";"), ops.join(",")));
+    }
+    out
+}
+
+/// smaller variants of one bulk-load / long-value op
+fn shrink_op(op: &str) -> Vec<String> {
+    let mut out = Vec::new();
+    if let Some(rest) = op.strip_prefix('P') {
+        if let Some((pre, nv)) = rest.split_once('*') {
+            if let Some((n, v)) = nv.split_once('=') {
+                if let Ok(n) = n.parse::<usize>() {
+                    for m in [n / 2, n * 3 / 4, n.saturating_sub(4), n.saturating_sub(1)] {
+                        if m >= 1 && m < n {
+                            out.push(format!("P{}*{}={}", pre, m, v));
+                        }
+                    }
+                }
+                if let Some(Ok(l)) = v.strip_prefix('l').map(|x| x.parse::<usize>()) {
+                    for m in [l / 2, l * 3 / 4, l.saturating_sub(16), l.saturating_sub(1)] {
+                        if m >= 1 && m < l {
+                            out.push(format!("P{}*{}=l{}", pre, n, m));
+                        }
+                    }
+                }
+            }
+        }
+    }
     out
 }
 
@@ -204,9 +718,28 @@ fn shrink(case: &str) -> Vec<String> {
             out.push(format!("{} {} {} {}", t[0], t[1], t[2], v.join(",")));
         }
     }
-    for v in shrink_list(&rules) {
-        if !v.is_empty() {
-            out.push(format!("{} {} {} {}", t[0], t[1], v.join(";"), t[3]));
+    if t[2] != "-" {
+        out.push(format!("{} {} - {}", t[0], t[1], t[3]));
+        for v in shrink_list(&rules) {
+            if !v.is_empty() {
+                out.push(format!("{} {} {} {}", t[0], t[1], v.join(";"), t[3]));
+            }
+        }
+    }
+    if t[1] != "-" {
+        let init: Vec<String> = t[1].split(',').map(|s| s.to_string()).collect();
+        out.push(format!("{} - {} {}", t[0], t[2], t[3]));
+        for v in shrink_list(&init) {
+            if !v.is_empty() {
+                out.push(format!("{} {} {} {}", t[0], v.join(","), t[2], t[3]));
+            }
+        }
+    }
+    for (i, op) in ops.iter().enumerate() {
+        for smaller in shrink_op(op) {
+            let mut v = ops.clone();
+            v[i] = smaller;
+            out.push(format!("{} {} {} {}", t[0], t[1], t[2], v.join(",")));
         }
     }
     out
